@@ -48,7 +48,8 @@ from ..lib_C14 import (BASIN_TYPES, CORE, DCORBASE, FB, FDICT, H5BASE,
                        class_assign, classes_in, edge_guarded,
                        enclosing_conditions, fact_guard, files_mentioning,
                        fold, fold_basin_classes, method, self_attr_writes,
-                       run_straight, single_assign, stmt_of)
+                       run_straight, single_assign, stmt_of, basin_loop,
+                       inline_module_helpers, module_functions)
 
 ASSUMPTIONS = [
     "NOT decided: termination as a wall-clock fact; availability checks of "
@@ -98,6 +99,11 @@ ID_PAIRS = (
     ("", "", "both empty"),
     ("2024-M7-ab12", None, "basin without identifier"),
 )
+
+
+#: methods that are anchors of rules and are never inlined
+KEEP_CALLS = ("_get_basin_feature_data", "_get_ancillary_feature_data",
+              "_assert_measurement_identifier", "_load_dataset")
 
 
 def is_key(e, var, key):
@@ -1177,7 +1183,8 @@ def r143(ctx, repo, sites):
     params = {a.arg for a in vb.args.args[1:]}
     # state in which the identifier check is due: requested, basin
     # available, not verified yet
-    DUE = {p_: True for p_ in params}
+    DUE = dict(module_functions(repo, FB))
+    DUE.update({p_: True for p_ in params})
     DUE.update({"self._measurement_identifier_verified": False,
                 "self.is_available()": True})
     for nm in {t.id for n in walk(vb) if isinstance(n, ast.Assign)
@@ -1463,13 +1470,7 @@ def r143(ctx, repo, sites):
 # ----------------------------------------------------------------------
 def r144(ctx, repo):
     f = repo.func(CORE, "RTDCBase._get_basin_feature_data")
-    loops = [n for n in walk(f) if isinstance(n, ast.For)
-             and "self.basins" in txt(n.iter) or isinstance(n, ast.For)
-             and "self._basins" in txt(n.iter)]
-    if len(loops) != 1 or not isinstance(loops[0].target, ast.Name):
-        raise AnalysisError("_get_basin_feature_data: basin loop lost")
-    lp = loops[0]
-    bn = lp.target.id
+    lp, bn, base_iter, _keeps = basin_loop(f, "_get_basin_feature_data")
     tries = [n for n in walk(lp) if isinstance(n, ast.Try)]
     inside = set()
     for t in tries:
@@ -1561,9 +1562,9 @@ def r144(ctx, repo):
              in ("remove", "pop", "clear") and isinstance(
                  c.func.value, ast.Attribute)
              and c.func.value.attr in ("_basins", "basins")]
-    copy = isinstance(lp.iter, ast.Call) and (call_name(lp.iter) in (
-        "list", "tuple", "copy.copy") or last_attr(lp.iter) == "copy") \
-        or isinstance(lp.iter, ast.Subscript)
+    copy = isinstance(base_iter, ast.Call) and (call_name(base_iter) in (
+        "list", "tuple", "copy.copy") or last_attr(base_iter) == "copy") \
+        or isinstance(base_iter, ast.Subscript)
     ctx.ob("R14.4", copy or not edits,
            "the basin list is iterated over a copy while unavailable basins "
            "are removed" if edits else "the basin list is not edited",
@@ -1688,7 +1689,9 @@ def run(ctx):
     ctx.rule("R14.4", "degradation: basin access inside try, catch-all, no "
              "re-raise, None unless delivered, copy iteration, available "
              "basins only", minimum=7)
-    sites = Sites(repo.func(CORE, "RTDCBase.basins_retrieve"))
+    sites = Sites(inline_module_helpers(
+        repo, CORE, repo.func(CORE, "RTDCBase.basins_retrieve"),
+        methods=True, keep=KEEP_CALLS))
     r141(ctx, repo, sites)
     r141_writers(ctx, repo)
     r142(ctx, repo, sites)
